@@ -499,7 +499,8 @@ def reshape_unknown_conditional_assigns(fn, known_sigs, known_names=frozenset())
                     and all(isinstance(b, ast.Assign) and len(b.targets) == 1 and isinstance(b.targets[0], ast.Name) for b in (st.body[0], st.orelse[0])) \
                     and st.body[0].targets[0].id == st.orelse[0].targets[0].id:
                 t = st.body[0].targets[0].id
-                if t in sg and sg[t][0] not in known_sigs and _pure(st.test):
+                if t in sg and sg[t][0] not in known_sigs and _pure(st.test) \
+                        and not any(isinstance(x, ast.Call) for b in (st.body[0], st.orelse[0]) for x in ast.walk(b.value)):
                     new = ast.Assign(targets=[ast.Name(id=t, ctx=ast.Store())],
                                      value=ast.IfExp(test=st.test, body=st.body[0].value, orelse=st.orelse[0].value))
                     body[i] = ast.copy_location(new, st)
